@@ -470,26 +470,19 @@ namespace Cobweb
 
 /-! ### `setup`: a prepared entry becomes the current run -/
 
-theorem TrkData.start_reads (t : TrkData) (sys d : Nat) (hidle : t.reacting = false) :
-    (t.start sys).prepared.countP (fun p => p.2 == d) +
-      (if (t.start sys).reacting = true ∧ (t.start sys).cur = d then 1 else 0) = t.prepared.countP (fun p => p.2 == d) := by
-  unfold TrkData.start
-  cases hf : findIdx' (fun p => p.1 == sys) t.prepared 0 with
-  | none => simp [hidle]
-  | some i =>
-    obtain ⟨pre, x, post, hl, hlen, _⟩ := split_at_first _ _ _ hf
-    have hget : t.prepared[i]? = some x := by rw [hl, ← hlen]; simp
-    obtain ⟨a, b⟩ := x
-    simp only [hget]
-    have hperm := swapRemove_perm pre (a, b) post
-    rw [hlen, ← hl] at hperm
-    have := hperm.countP_eq (fun p => p.2 == d)
-    rw [this, hl]
-    simp only [List.countP_append, List.countP_cons, true_and]
-    by_cases hb : b = d
-    · subst hb; simp; omega
-    · have : (b == d) = false := by simp [hb]
+theorem TrkData.start_reads (t : TrkData) (sys d0 d : Nat) (hidle : t.reacting = false) :
+    (t.start sys d0).prepared.countP (fun p => p.2 == d) +
+      (if (t.start sys d0).reacting = true ∧ (t.start sys d0).cur = d then 1 else 0) = t.prepared.countP (fun p => p.2 == d) := by
+  by_cases hm : (sys, d0) ∈ t.prepared
+  · obtain ⟨h1, h2, h3⟩ := TrkData.start_claims_own t sys d0 hm
+    rw [h1, h2, h3]
+    have := (List.perm_cons_erase hm).countP_eq (fun p => p.2 == d)
+    rw [this, List.countP_cons]
+    by_cases hb : d0 = d
+    · subst hb; simp
+    · have : (d0 == d) = false := by simp [hb]
       simp [this, hb]
+  · rw [TrkData.start_none t sys d0 hm]; simp [hidle]
 
 theorem setupK_trkEvt_other (s : St) (k : Kind) (sys : Nat) (h : usesEvt k = false) : (setupK s k sys).trkEvt = s.trkEvt := by
   cases k <;> simp [usesEvt] at h <;> simp only [setupK] <;> (try split) <;> simp
@@ -502,8 +495,8 @@ theorem setupK_reads (s : St) (k : Kind) (sys d : Nat) (hidle : s.trkEvt.reactin
     have h0 : curReads d s = 0 := by simp [curReads, hidle]
     rw [h0]
     cases k <;> simp [usesEvt] at hu <;> simp only [setupK, prepReads, curReads]
-    · exact TrkData.start_reads s.trkEvt sys d hidle
-    · exact TrkData.start_reads s.trkEvt sys d hidle
+    · exact TrkData.start_reads s.trkEvt sys _ d hidle
+    · exact TrkData.start_reads s.trkEvt sys _ d hidle
 
 theorem setupK_readers (s : St) (k : Kind) (sys d : Nat) (hidle : s.trkEvt.reacting = false) :
     readers d (setupK s k sys) = readers d s := by
@@ -1374,8 +1367,8 @@ theorem data_runFrame (p : Prog) (hh : Hist) {s0 : St} {f : Frame} {rest : List 
         (by simp; exact fun g hg => h.frames g (by rw [hs]; simp [hg])) (by simp; exact h.wq)
     cases hu : usesEvt k with
     | true =>
-      have hin : sys ∈ prep .evt s0 :=
-        prep_mem_of_pending I.pend .evt sys k hu (by simp [allPending, hs, stackPending_cons, framePending])
+      have hin : ∀ key, keyOf .evt k = some key → (sys, key) ∈ prepD .evt s0 := fun key hk =>
+        prepD_mem_of_pending I.pendD .evt sys k key hk (by simp [allPending, hs, stackPending_cons, framePending])
       have hre' : (setupK ({ s0 with stack := rest } : St) k sys).trkEvt.reacting = true :=
         setupK_sets .evt _ k sys hu hin
       exact data_cleanupK h2 k hu hre' (by simpa using hnb)
